@@ -38,8 +38,10 @@ def frame_of(fr):
     if k == "rolling":
         return ("rows", 1 - fr[1], 0) if fr[1] > 0 else ("rows", None, None)
     a, b = fr[1], fr[2]
+    if (a, b) == (0, -1):
+        return ("rows", None, None)          # the spelling of the std.prql default: "argument not given"
     if a is not None and b is not None and a > b:
-        return ("rows", None, None)
+        return None                          # rejected: "window: `rows` is an empty range ..." (/repo 7b31f75)
     return (k, a, b)
 
 
@@ -88,6 +90,20 @@ def empty_range(fr):
     return fr[0] in ("rows", "range") and fr[1] is not None and fr[2] is not None and fr[1] > fr[2]
 
 
+def explicit_default(fr):
+    """`rows:0..-1` / `range:0..-1` written out: the one empty range the transform still accepts (it cannot tell it from
+    "argument not given"); the book's meaning is the empty segment (F54)"""
+    return fr[0] in ("rows", "range") and (fr[1], fr[2]) == (0, -1)
+
+
+def rejected(fr):
+    """the argument the `window` transform rejects (python mirror of Model/Frame.v frame_of = WEmptyRange ..), or None"""
+    return fr[0] if empty_range(fr) and not explicit_default(fr) else None
+
+
+EMPTY_RANGE_MSG = "window: `%s` is an empty range (its start is after its end)"
+
+
 def all_frames(kinds=("rows", "range")):
     out = [("none",), ("expanding",), ("rolling", 1), ("rolling", 2), ("rolling", 3)]
     for k in kinds:
@@ -118,7 +134,7 @@ def fn_coq(f, k):
 def f22_class(f, fr, sorted_):
     """first/last never get a frame clause (no window_frame=true): wrong whenever the requested frame is
     not SQL's implicit default frame"""
-    return f in ("first", "last") and frame_of(fr) != sql_default(sorted_)
+    return f in ("first", "last") and rejected(fr) is None and frame_of(fr) != sql_default(sorted_)
 
 
 class WProgram(P.Program):
@@ -318,7 +334,7 @@ def build(case):
         items.append("%s = %s" % (nm, fn_prql(f, k, arg)))
         citems.append("(Some %d%%N, %s, %s)" % (P.nid(nm), fn_coq(f, k), P.coq_expr(arg)))
         wmeta[nm] = {"fn": f, "frame": case.frame, "sorted": case.sorted, "f22": f22_class(f, case.frame, case.sorted),
-                     "empty": empty_range(case.frame) and f in FRAME_SENSITIVE}
+                     "f54": explicit_default(case.frame) and f in FRAME_SENSITIVE}
     by = [case.part] if case.part else []
     if case.unique:
         keep = [c for c in ("id", "g", "c", "b", "d") if c in avail]
@@ -438,7 +454,7 @@ def build(case):
         steps.append(P.Step("select", "select {%s}" % ", ".join(P.prql_expr(col(c)) for c in fc), "TSelect [%s]" % "; ".join("(None, %s)" % P.coq_expr(col(c)) for c in fc), final=True))
     else:
         fc = None
-    pg = WProgram(steps, False, fc, {"case": case, "wcols": wmeta})
+    pg = WProgram(steps, False, fc, {"case": case, "wcols": wmeta, "rejected": rejected(case.frame)})
     return pg
 
 
